@@ -28,6 +28,7 @@ Checks(e) ==
          \cup Flag(e.deterministic, "C18_scrypt_not_deterministic")
          \cup Flag(e.pw_sensitive /\ e.salt_sensitive /\ e.n_sensitive /\ e.r_sensitive /\ e.p_sensitive, "C18_scrypt_ignores_a_parameter")
          \cup Flag(e.prefix, "C18_scrypt_shorter_output_is_not_a_prefix")
+         \cup Flag(e.hmac_norm, "C18_scrypt_password_not_used_as_an_hmac_key")
     [] e.ev = "oracle" ->
          Flag(e.same, IF e.fn = "scrypt" THEN "C18_scrypt_differs_from_reference" ELSE "C19_primitive_differs_from_reference")
     [] e.ev = "rfc" -> Flag(e.same, "C19_primitive_differs_from_structural_rfc_definition")
@@ -45,6 +46,7 @@ Checks(e) ==
          Flag(e.released_dirty = 0, "C20_secret_bytes_not_erased_at_release")
          \cup Flag(e.not_released = 0, "C20_container_memory_not_released_or_moved")
          \cup Flag(e.live_changed = 0, "C20_drop_changed_another_live_object")
+         \cup Flag(e.leaked_blocks = 0, "C20_secret_left_in_a_block_released_during_construct_clone_or_drop")
     [] OTHER -> {<<l, "TOOL_unknown_event">>}
 
 Step == /\ l <= N /\ viol' = viol \cup Checks(Rec[l]) /\ l' = l + 1
